@@ -33,6 +33,12 @@ checks.update({
    note="M6 (i64 arithmetic + truncation, shifts mod 32, IEEE f32 as Rust implements it) trusted; && / || compared for truthiness only; AstVm for the partially-constant family.",
    technique="exhaustive enumeration of operator x operand-boundary products against a reference evaluator; bounded exhaustive differential execution"),
 })
+checks.update({
+ "C09": dict(level=MC, ref="DESIGN.md §4 C09",
+   text="E-DFS over an untyped statement/expression grammar (18 statement contexts x 9 nesting positions incl. nested free blocks, loop/if/else/times bodies) whose defaults are well-typed and whose every alternative of another type is one deviation, so all single-point mutations are covered; Ok/Err of the real type checker is compared with the M4 reference typer, and for accepted programs compute_ty of every subexpression is compared with the type of its AstVm value.",
+   note="M4 (harness typer from the documented rules) trusted; AstVm::eval for value types.",
+   technique="bounded exhaustive enumeration of programs and their single-point type mutations against a reference type checker"),
+})
 pending = {}
 def main():
     try:
